@@ -183,7 +183,16 @@ func (x *fnExec) generate() {
 			vars := copyVars(fr.vars)
 			x.bindResults(vars, fn, cl, r.val)
 			env := &specEnv{x: x, vars: vars, cur: r.st, old: fr.entry, info: cl.Info}
+			nf0, nq0 := len(x.facts), len(x.qfacts)
 			goal, hyp, sk := env.clauseGoal(cl)
+			// facts produced while evaluating the clause (contracts of functions called inside it) belong to this
+			// return site, whatever block was executed last
+			for i := nf0; i < len(x.facts); i++ {
+				x.facts[i].global = true
+			}
+			for i := nq0; i < len(x.qfacts); i++ {
+				x.qfacts[i].global = true
+			}
 			o := x.obligation(r.st, c.Key+":post#"+cl.Label, "post", site, clauseTags(c, cl), goal, hyp, cl.Src)
 			o.skolems = sk
 			o.blk = r.blk
